@@ -83,8 +83,8 @@ PROPS["C16"] = dict(
 
 PROPS["C13"] = dict(
     modules=["Hub.Props.C13"],
-    gens=["c13", "c05"],
-    rule="(a) random sequences of namespace assertions, URI compactions (hash/slash namespaces, empty local part, colons/slashes/hashes/non-ASCII in "
+    gens=["c13", "c05", "store-c05"],
+    rule="(store-c05) forced schedules of two writers: the outer batch or transaction runs until it reaches one of the points tools/instr inserts into copies of StoreEntities / ExecuteTransaction / commitIDTxn (after filling the transaction, before and after the commit of the shared id transaction, after the data commit, after the counter update), there a second write — same or another dataset, sharing never-seen identifiers with the first, sometimes rejected after it has drawn identifiers — is started on a second goroutine and the first waits until it has returned or is parked on a lock; both must return and every read afterwards must be that of the two writes one after the other; (a) random sequences of namespace assertions, URI compactions (hash/slash namespaces, empty local part, colons/slashes/hashes/non-ASCII in "
          "the local part), CURIE expansions and store restarts against the real NamespaceManager, every answer and the final prefix table compared; "
          "(b) identifiers introduced as entity ids in batches with restarts in between, rank order of their internal ids compared (ids never change, "
          "never collide, later ones are larger); non-trivial = at least two namespaces / three ids and at least one restart",
@@ -125,8 +125,8 @@ STORE_RULE = ("generated histories (4-15 write ops over 2-3 datasets, id pool 5,
 
 PROPS["C01"] = dict(
     modules=["Hub.Props.C01"],
-    gens=["store-c01", "c05stale"],
-    rule=STORE_RULE + "after every op: paged listings (page sizes 0,1,2,3 following the tokens), scoped / two-dataset / unscoped merged lookups, now and pinned "
+    gens=["store-c01", "c05stale", "store-c05"],
+    rule=STORE_RULE + "(store-c05) forced schedules of two writers: the outer batch or transaction runs until it reaches one of the points tools/instr inserts into copies of StoreEntities / ExecuteTransaction / commitIDTxn (after filling the transaction, before and after the commit of the shared id transaction, after the data commit, after the counter update), there a second write — same or another dataset, sharing never-seen identifiers with the first, sometimes rejected after it has drawn identifiers — is started on a second goroutine and the first waits until it has returned or is parked on a lock; both must return and every read afterwards must be that of the two writes one after the other; after every op: paged listings (page sizes 0,1,2,3 following the tokens), scoped / two-dataset / unscoped merged lookups, now and pinned "
          "to earlier commit instants (±1 ns); non-trivial = at least 3 stored versions and 2 lookups; distinct = distinct histories",
     trusted=STORE_TRUST,
     assumptions=["commit times of a dataset strictly increase (write lock + clock)", "merge of partials for unscoped lookups is modelled in the driver (JSON level), not in a theorem"],
@@ -277,8 +277,8 @@ PROPS["C20"] = dict(
 
 PROPS["C05"] = dict(
     modules=["Hub.Props.C05"],
-    gens=["c05", "c05stale"],
-    rule="(c05.stale) a forced schedule: a batch or a two-dataset transaction is started while another writer holds the dataset's write lock, that writer commits and releases, the parked "
+    gens=["c05", "c05stale", "store-c05"],
+    rule="(store-c05) forced schedules of two writers: the outer batch or transaction runs until it reaches one of the points tools/instr inserts into copies of StoreEntities / ExecuteTransaction / commitIDTxn (after filling the transaction, before and after the commit of the shared id transaction, after the data commit, after the counter update), there a second write — same or another dataset, sharing never-seen identifiers with the first, sometimes rejected after it has drawn identifiers — is started on a second goroutine and the first waits until it has returned or is parked on a lock; both must return and every read afterwards must be that of the two writes one after the other; (c05.stale) a forced schedule: a batch or a two-dataset transaction is started while another writer holds the dataset's write lock, that writer commits and releases, the parked "
          "writer commits after it — listing, scoped lookup (newest commit time) and the feed's recorded times must agree on the parked writer's version; child processes with 4-8 concurrent writers (single-dataset batches, some rejected; two-dataset transactions naming their datasets in both orders and minting new identifiers), "
          "readers and a dataset creator/deleter, GOMAXPROCS 1/4/16, a watchdog (a hang is a deadlock), then the final state is checked: listing = last feed entry per id = scoped lookup, every "
          "acknowledged write is in the feed in its client's order, recorded times never decrease along a feed; non-trivial = every run",
@@ -345,8 +345,8 @@ PROPS["C08"] = dict(
 
 PROPS["C04"] = dict(
     modules=["Hub.Props.C04"],
-    gens=["store-c04"],
-    rule=STORE_RULE + "with dataset create/delete/rename, in which about a third of the state-changing operations run in a CHILD PROCESS with one crash point armed: tools/instr inserts a point "
+    gens=["store-c04", "store-c05"],
+    rule=STORE_RULE + "(store-c05) forced schedules of two writers: the outer batch or transaction runs until it reaches one of the points tools/instr inserts into copies of StoreEntities / ExecuteTransaction / commitIDTxn (after filling the transaction, before and after the commit of the shared id transaction, after the data commit, after the counter update), there a second write — same or another dataset, sharing never-seen identifiers with the first, sometimes rejected after it has drawn identifiers — is started on a second goroutine and the first waits until it has returned or is parked on a lock; both must return and every read afterwards must be that of the two writes one after the other; with dataset create/delete/rename, in which about a third of the state-changing operations run in a CHILD PROCESS with one crash point armed: tools/instr inserts a point "
          "after every durable step (StoreEntitiesWithTransaction, commitIDTxn, txn.Commit, updateDataset, storeValue, moveValue, deleteValueAndStoreObject, storeEntity) of copies of "
          "StoreEntities, ExecuteTransaction, CreateDataset, UpdateDataset, DeleteDataset (mapped over the originals with -overlay), the child kills itself with SIGKILL at the first or second hit "
          "(second = the nested store of the meta entity / the second dataset of a transaction); the parent reopens the store, determines whether the operation landed, and the history continues "
